@@ -66,7 +66,9 @@ def run(ctx):
     ctx.ob("C46.D2-batch-write-then-clear", cname(ev, None, "full batch: write the cache, then clear it"), ok,
            "" if ok else "rows are written twice / dropped at the batch boundary", nontrivial=True, where=where(ev, ev.node))
     ok = "data_cache = self._internal_data_cache[desc_name]" in t and "desc_name = self._desc_nodes[desc_uid].item['id']" in t
-    ctx.ob("C46.D2-batch-write-then-clear", cname(ev, None, "rows cached per stream"), ok, "" if ok else "cache key changed", where=where(ev, ev.node))
+    ctx.ob("C46.D2-batch-write-then-clear", cname(ev, None, "rows cached per stream (keyed by the stream's name, not by the descriptor uid)"), ok,
+           "" if ok else "the batch cache is no longer keyed by the stream name: a stream with two descriptors gets two caches which are flushed independently, "
+           "so the table is no longer in seq_num order", nontrivial=True, where=where(ev, ev.node))
     stp = [x for x in (loops_i[0].body if loops_i else []) if isinstance(x, ast.If)]
     ok = bool(stp) and any(A.norm(x) == "data_cache.clear()" for x in stp[0].body)
     ctx.ob("C46.D2-batch-write-then-clear", cname(st, None, "stop clears what it wrote"), ok, "" if ok else "a second stop would write the rows again", where=where(st, st.node))
